@@ -30,6 +30,10 @@ func layouts() []layout {
 			}
 		}
 	}
+	// "any epoch": before 1970 with and without a millisecond fraction, 1970 itself, a fraction after 1970
+	for _, ep := range []int64{-1500, -86400123, -3600000, 0, 1609430400123} {
+		o = append(o, layout{ep, 10, false}, layout{ep, 8, true})
+	}
 	return o
 }
 
@@ -327,7 +331,7 @@ func nanoPart(r *ev.Run, depth int) ev.Part {
 
 func main() {
 	r := ev.Start("C06")
-	r.Rule("every history of clock readings (relative to the generator's current millisecond: -1000,-1,0,+1,+2,+100000; restart with the last id) up to the stated length on the real HardNode from seeded start states at the step wrap (step 0,1,4094,4095); MonoNode under a virtual non-decreasing clock incl. stalled readings inside its spin loop and a 4094-call frozen-clock warm-up; UnixNanoID over ts histories; for every layout (node bits 8/9/10 x node-at-lowest x two epochs) in its own process; distinct = (delta, carry/reset/bump) classes")
+	r.Rule("every history of clock readings (relative to the generator's current millisecond: -1000,-1,0,+1,+2,+100000; restart with the last id) up to the stated length on the real HardNode from seeded start states at the step wrap (step 0,1,4094,4095); MonoNode under a virtual non-decreasing clock incl. stalled readings inside its spin loop and a 4094-call frozen-clock warm-up; UnixNanoID over ts histories; for every layout (node bits 8/9/10 x node-at-lowest x two epochs, plus five more epochs - before 1970 with and without a millisecond fraction, 1970, a fraction after 1970 - on two layouts) in its own process; distinct = (delta, carry/reset/bump) classes")
 	r.Assume("clock readings stay inside the timestamp width", "MonoNode is only given non-decreasing clocks (it reads Go's monotonic clock)")
 	ls := layouts()
 	if r.Shard != "" {
